@@ -642,6 +642,64 @@ func (w *World) intrinsic(t *Thread, f *Frame, fnv FuncV, args []Val, c *ssa.Cal
 		}
 	case "strings.Contains":
 		return w.strContains(args[0], args[1]), false
+	case "strings.Map":
+		src, ok := args[1].(string)
+		if !ok {
+			panic(engErr("strings.Map on a symbolic string"))
+		}
+		var sb strings.Builder
+		for _, r := range src {
+			out := w.callSync(t, args[0].(FuncV), []Val{int64(r)})
+			if rv, ok := out.(int64); ok && rv >= 0 {
+				sb.WriteRune(rune(rv))
+			}
+		}
+		return sb.String(), false
+	case "strings.ReplaceAll", "strings.TrimSpace", "strings.ToUpper", "strings.TrimPrefix", "strings.TrimSuffix", "strings.HasSuffix",
+		"strings.Index", "strings.EqualFold", "strings.Repeat", "strings.Trim", "strings.TrimLeft", "strings.TrimRight", "strings.Count", "strings.LastIndex", "strings.Title":
+		var sa []string
+		var ia []int64
+		for _, a := range args {
+			switch x := a.(type) {
+			case string:
+				sa = append(sa, x)
+			case int64:
+				ia = append(ia, x)
+			default:
+				panic(engErr(name + " on a symbolic or partially symbolic string"))
+			}
+		}
+		switch name {
+		case "strings.ReplaceAll":
+			return strings.ReplaceAll(sa[0], sa[1], sa[2]), false
+		case "strings.TrimSpace":
+			return strings.TrimSpace(sa[0]), false
+		case "strings.ToUpper":
+			return strings.ToUpper(sa[0]), false
+		case "strings.TrimPrefix":
+			return strings.TrimPrefix(sa[0], sa[1]), false
+		case "strings.TrimSuffix":
+			return strings.TrimSuffix(sa[0], sa[1]), false
+		case "strings.HasSuffix":
+			return strings.HasSuffix(sa[0], sa[1]), false
+		case "strings.Index":
+			return int64(strings.Index(sa[0], sa[1])), false
+		case "strings.LastIndex":
+			return int64(strings.LastIndex(sa[0], sa[1])), false
+		case "strings.EqualFold":
+			return strings.EqualFold(sa[0], sa[1]), false
+		case "strings.Repeat":
+			return strings.Repeat(sa[0], int(ia[0])), false
+		case "strings.Trim":
+			return strings.Trim(sa[0], sa[1]), false
+		case "strings.TrimLeft":
+			return strings.TrimLeft(sa[0], sa[1]), false
+		case "strings.TrimRight":
+			return strings.TrimRight(sa[0], sa[1]), false
+		case "strings.Count":
+			return int64(strings.Count(sa[0], sa[1])), false
+		}
+		return sa[0], false
 	case "strings.HasPrefix":
 		if a, ok := args[0].(string); ok {
 			if b, ok := args[1].(string); ok {
